@@ -6,6 +6,7 @@ package main
 // vertices / transactions, further proposals that spend checkpointed funds, a second truncation.
 
 import (
+	"sync"
 	"context"
 	"strings"
 	"fmt"
@@ -25,6 +26,7 @@ type truncShape struct {
 	sideTip   bool
 	second    bool
 	overdrawn bool
+	straddle  bool // a contract-only side tip whose left parent will be truncated and whose right parent stays live
 	parallel  bool // around the later cut the nodes seal runs of vertices before they exchange them: real side branches
 }
 
@@ -138,7 +140,7 @@ func truncScenario(c *Ctx, sh truncShape) {
 		withheld = nil
 	}
 	var side accountant.Vertex
-	if sh.sideTip {
+	if sh.sideTip && !sh.straddle {
 		// a second tip hanging off an old vertex, sealed by a wallet acting as a node
 		old := all[len(all)-1100]
 		t := w.NewTrx(w.wallets[2], w.wallets[3].Address(), spice.Melange{SupplementaryCurrency: 1}, nil)
@@ -146,12 +148,60 @@ func truncScenario(c *Ctx, sh truncShape) {
 		side = v
 		w.Add(a, &side)
 	}
+	if sh.straddle {
+		old, recent := all[10], all[len(all)-3]
+		t := w.NewTrx(w.wallets[2], w.wallets[3].Address(), spice.Melange{}, []byte("side contract"))
+		sv, _ := accountant.NewVertex(t, old.Hash, recent.Hash, recent.Weight+1, w.wallets[0])
+		w.Add(a, &sv)
+	}
 	w.quiet = false
 	w.Seed(a)
 	before := w.balancesOf(a)
 	preSnap := a.ab.VerifSnapshot()
-	// ---- truncate
-	if err := w.Truncate(a); err != nil {
+	// ---- truncate. On a single-tip ledger balance queries that arrive WHILE the truncation runs (and nothing
+	// else does) must give the very balances of before and after: checkpoint and live graph are one state.
+	stopQ := make(chan struct{})
+	var qwg sync.WaitGroup
+	var qmux sync.Mutex
+	qbad, qn := "", 0
+	if sh.nodes == 1 && !sh.sideTip {
+		for g := 0; g < 4; g++ {
+			qwg.Add(1)
+			go func(g int) {
+				defer qwg.Done()
+				for i := g; ; i++ {
+					select {
+					case <-stopQ:
+						return
+					default:
+					}
+					wl := w.wallets[i%len(w.wallets)]
+					b, err := a.ab.CalculateBalance(context.Background(), wl.Address())
+					got := "err"
+					if err == nil {
+						got = bval(b.Spice).String()
+					}
+					qmux.Lock()
+					qn++
+					if got != before[wl.Address()] && qbad == "" {
+						qbad = fmt.Sprintf("balance of %s asked while the truncation was running: %s, before (and after) the truncation: %s", w.A(wl.Address()), got, before[wl.Address()])
+					}
+					qmux.Unlock()
+				}
+			}(g)
+		}
+	}
+	terr := w.Truncate(a)
+	close(stopQ)
+	qwg.Wait()
+	if qn > 0 {
+		c.Count("trunc.balance-queries-during-truncation")
+		c.Rep.Extra["queries_during_truncation."+sh.name] = qn
+	}
+	if qbad != "" {
+		c.Violate("C06", "balance-during-truncation-differs", fmt.Sprintf("shape %s: %s", sh.name, qbad), info)
+	}
+	if err := terr; err != nil {
 		c.Violate("C07", "truncate-fails", fmt.Sprintf("truncate on shape %s: %v", sh.name, err), info)
 		return
 	}
@@ -558,6 +608,7 @@ func init() {
 			{name: "chain-twice", nodes: 1, build: 1150, second: true},
 			{name: "selfxfer-braid", nodes: 2, build: 1200, selfXfer: true, parallel: true},
 			{name: "sidetip", nodes: 1, build: 1250, sideTip: true},
+			{name: "straddle", nodes: 1, build: 1120, sideTip: true, straddle: true},
 		}
 		if c.Tier == "thorough" {
 			shapes = append(shapes,
